@@ -106,6 +106,11 @@ def make_cases():
         il = rand_axis(rng, rng.randrange(2, 6)); xl = rand_axis(rng, rng.randrange(2, 6))
         cases.append(dict(route='segy', il=il, xl=xl, dt=rng.choice(BAD[:200]), t0=pick_t0(rng), ns=rng.randrange(2, 6), i32=True,
                           post=rng.choice(['reblock', 'export'])))
+    # cropping: axes of the cropped file = sub-ranges of the source axes (ends inside the last partial unit included)
+    for k in range(8 if quick else 40):
+        il = rand_axis(rng, rng.randrange(5, 12)); xl = rand_axis(rng, rng.randrange(5, 12))
+        cases.append(dict(route='segy', il=il, xl=xl, dt=4000, t0=0, ns=rng.randrange(2, 6), i32=True, post='crop',
+                          box=[rng.randrange(100), rng.randrange(100), rng.randrange(100), rng.randrange(100)]))
     return cases
 
 
@@ -165,6 +170,23 @@ def run_impl(c, d):
             out['raised'] = type(e).__name__ + ': ' + str(e)[:100]
             return out
     post = c.get('post')
+    if post == 'crop':
+        # crop by index: the axes of the result are the source axes restricted to the box widened to unit boundaries and clipped
+        n_i, n_x = len(out['src_il']), len(out['src_xl'])
+        a0, a1 = c['box'][0] % n_i, 0
+        a1 = min(n_i, a0 + 1 + c['box'][1] % n_i)
+        b0 = c['box'][2] % n_x
+        b1 = min(n_x, b0 + 1 + c['box'][3] % n_x)
+        q = os.path.join(d, 'crop.sgz')
+        with SgzCropper(p) as cr:
+            quiet(cr.write_cropped_file_by_indexes, q, iline_index_range=(a0, a1), xline_index_range=(b0, b1),
+                  zslices_index_range=(0, len(out['src_z'])))
+        w = lambda lo, hi, n: (4 * (lo // 4), min(n, -(-hi // 4) * 4))
+        (i0, i1), (x0, x1) = w(a0, a1, n_i), w(b0, b1, n_x)
+        out['src_il'], out['src_xl'] = out['src_il'][i0:i1], out['src_xl'][x0:x1]
+        out['src_tracecount'] = (i1 - i0) * (x1 - x0)
+        out['crop_box'] = [a0, a1, b0, b1]
+        p = q
     if post == 'reblock':
         q = os.path.join(d, 'adv.sgz')
         with SgzConverter(p) as cv:
